@@ -39,6 +39,27 @@ type Prop[C any] struct {
 	Rule string
 	Gen  func(t *rapid.T) C
 	Run  func(c C) (Outcome, error)
+	// Retries > 1 declares that one case does not determine one execution
+	// (the library iterates Go maps and seeds its shard hash randomly, so the
+	// same schedule choices can meet the hooks in a different order). A replay
+	// and, once a failure has been seen, every shrink candidate is then run
+	// up to Retries times and counts as failing if any run fails. Before the
+	// first failure every generated case is run once.
+	Retries int
+}
+
+// runRetry runs the case up to n times and returns the first failure.
+func runRetry[C any](p Prop[C], c C, n int) (out Outcome, err error) {
+	if n < 1 {
+		n = 1
+	}
+	for i := 0; i < n; i++ {
+		out, err = safeRun(p, c)
+		if err != nil {
+			return out, err
+		}
+	}
+	return out, nil
 }
 
 type shardStats struct {
@@ -203,7 +224,7 @@ func Main[C any](t *testing.T, p Prop[C]) {
 			if err := json.Unmarshal(b, &c); err != nil {
 				t.Fatalf("replay %s: bad case: %v", f, err)
 			}
-			out, err := safeRun(p, c)
+			out, err := runRetry(p, c, p.Retries)
 			raw, _ := json.Marshal(c)
 			col.record(raw, out)
 			col.st.Replayed++
@@ -227,7 +248,11 @@ func Main[C any](t *testing.T, p Prop[C]) {
 		if jerr != nil {
 			rt.Fatalf("harness: case not serialisable: %v", jerr)
 		}
-		out, err := safeRun(p, c)
+		tries := 1
+		if col.failed {
+			tries = p.Retries
+		}
+		out, err := runRetry(p, c, tries)
 		if !col.failed {
 			col.record(raw, out)
 			n++
